@@ -140,6 +140,7 @@ PROPS = {
         "level": "exploration",
         "jobs": [
             rapid("pbt", "^TestC15$", {"checks": 20000, "timeout": 300}, {"checks": 400000, "shards": 6, "timeout": 2400}),
+            rapid("cli", "^TestC15Cli$", {"checks": 20000, "timeout": 300}, {"checks": 300000, "shards": 4, "timeout": 2400}, seed_offset=5),
             fuzz("fuzz", "FuzzC15", "90s", timeout=400),
         ],
     },
